@@ -14,7 +14,7 @@ from harness import pyast_wire as W
 
 META = {
     "id": "C02",
-    "technique": "Coq proof (soundness of a line-by-line model of _infer_expr_type w.r.t. the reference Python expression semantics, by induction over expressions; join / declaration / hoisting lemmas; refutation witnesses by vm_compute) + extracted-model correspondence with the real _infer_expr_type/_cpp_type/_merge_* and with the declaration lines of the emitted C++ + firmware-vs-CPython value oracle",
+    "technique": "Coq proof (soundness of a line-by-line model of _infer_expr_type w.r.t. the reference Python expression semantics, by induction over expressions and over nested list comprehensions with their var_types bracket; join / declaration / hoisting / signature-alias lemmas; refutation witnesses by vm_compute) + extracted-model correspondence with the real _infer_expr_type/_cpp_type/_merge_* and with the declaration lines of the emitted C++ + firmware-vs-CPython value oracle",
     "level_text": "Theorems C02_* (coq/Props/C02.v) are proved for all expressions / assignment sequences about Gallina models (coq/Lang/Infer.v, Decl.v) of the type-label layer of transpile/parser.py; _partial theorems carry an executable guard, each guard clause has a _refuted witness. The models are run against the real functions (direct calls, exact label and mutated var_types) and against the declared C types in the emitted sketch; the property itself is tested on compiled firmware (mock core) against CPython for programs inside the guard.",
     "level_note": "Trusted: Coq kernel, extraction (ExtrOcamlBasic), OCaml driver, translator plug-in harness/gen/c02_infer.py (builtin call table), harness codecs, g++ and the mock Arduino core as 'device', CPython 3.12 as 'Python', PySem.v as the reference expression semantics (validated against CPython's eval). The theorems are about the models; the correspondence bounds their distance from parser.py.",
     "design_ref": "DESIGN.md section 4 C02, Appendix B.1-B.4",
@@ -464,6 +464,8 @@ def render_block(stmts, lvl, out):
             out.append(pad + ("return\n" if st[1] is None else f"return {st[1]}\n"))
         elif k == "assignc":
             out.append(f"{pad}{st[1]} = [{st[4]} for {st[2]} in range({st[3]})]\n")
+        elif k == "tassign":
+            out.append(f"{pad}{', '.join(st[1])} = {', '.join(st[2])}\n")
         elif k == "if":
             for i, (c, b) in enumerate(st[1]):
                 out.append(f"{pad}{'if' if i == 0 else 'elif'} {c}:\n")
@@ -798,6 +800,7 @@ class RunGen:
         self.comp_shadow = {}     # kind of the enclosing variable the comprehension target shadows -> count
         self.comp_shadow_falsy = 0  # ... whose parser-known constant is falsy (0, 0.0, False, "") while its run-time value is not
         self.accumulators = 0
+        self.tuples = {}          # tuple assignments by the set of kinds they declare
 
     def newname(self, prefix="v"):
         self.fresh += 1
@@ -1001,6 +1004,24 @@ class RunGen:
                 out += self.derive(st, shadow, nested)
         return out
 
+    def tuple_assign(self, st, nested):
+        """x, y = e1, e2 : two or three NEW names of different kinds declared by one statement, or a swap of two readable
+        variables of one numeric kind"""
+        rng = self.rng
+        rd = self.rd(st)
+        same = [k for k in ("int", "float") if len(rd[k]) >= 2]
+        if same and rng.random() < 0.35:
+            k = rng.choice(same)
+            a, b = rng.sample(rd[k], 2)
+            self.tuples["swap"] = self.tuples.get("swap", 0) + 1
+            return [("tassign", [a, b], [b, a]), ("write", a), ("write", b)]
+        kinds = [rng.choice(["int", "float", "bool", "str"]) for _ in range(rng.choice([2, 2, 3]))]
+        srcs = [self.expr(k, rng.choice([0, 1]), rd) for k in kinds]
+        names = [self._new(st, k, nested) for k in kinds]
+        key = "+".join(sorted(set(kinds)))
+        self.tuples[key] = self.tuples.get(key, 0) + 1
+        return [("tassign", names, srcs)] + [("write", n) for n in names]
+
     ZERO = {"int": ["0", "0", "5"], "float": ["0.0", "0.0", "2.25"], "bool": ["False", "False", "True"], "str": ['""', '""', '"ab"']}
 
     def accumulator(self, st, nested):
@@ -1043,6 +1064,9 @@ class RunGen:
                 continue
             if not nested and rng.random() < 0.10:
                 out += self.comp(st, nested)
+                continue
+            if not nested and rng.random() < 0.08:
+                out += self.tuple_assign(st, nested)
                 continue
             if depth > 0 and r < 0.2:
                 brs = []
@@ -1230,6 +1254,7 @@ def part_c(ctx, stats):
                                "augmented_assignments": sum(g.augs for g in gens),
                                "bool_int_conditional_expressions": sum(g.mixed_ifexp for g in gens),
                                "list_comprehensions": sum(g.comps for g in gens),
+                               "tuple_assignments_by_declared_kinds": {k: sum(g.tuples.get(k, 0) for g in gens) for k in sorted({k for g in gens for k in g.tuples})},
                                "comprehension_target_shadows_a_variable_of_kind": {k: sum(g.comp_shadow.get(k, 0) for g in gens) for k in ("int", "float", "bool", "str")},
                                "accumulators_updated_only_in_child_scopes": sum(g.accumulators for g in gens),
                                "shadowed_accumulators_with_a_falsy_known_constant": sum(g.comp_shadow_falsy for g in gens),
@@ -1324,7 +1349,18 @@ def run(ctx: C.Ctx):
                  "order with boundary values (negative, 0, 1, non-integral), results stored in fresh and in wider existing variables, calls at column "
                  "0 / inside a branch / in the main loop, a top-level if/else hoist and a top-level loop hoist before or after the defs; 3 fixed "
                  "class representatives run at every seed; an abstract kind interpreter (Checker) keeps every parsed variant inside the guard; "
-                 "same oracle as (c), the shortest failing script is reported first."),
+                 "same oracle as (c), the shortest failing script is reported first.  "
+                 "(a') list comprehensions [elt for t in range(n)] (nested up to 2, target = a name of every label / an unbound name, generated "
+                 "elements, names bound to folded constants of every truthiness): real _infer_expr_type (label, var_types afterwards) and real "
+                 "_to_c_expr (var_types afterwards) vs Lang/InferComp.v.  (b) also draws comprehension assignments whose target re-uses a name of the "
+                 "enclosing scope (top level, defs, main loop) and parameter-widening defs called under several signatures in both orders.  "
+                 "(c) also draws float 0.0 literals, comprehensions whose target shadows a variable of every kind followed by a NEW variable derived "
+                 "from the shadowed one, and accumulators initialised with a (mostly falsy) constant, updated only inside a for/while/if body, then "
+                 "shadowed by a comprehension target, then read; tuple assignments declaring 2-3 new names of different kinds and swaps of two "
+                 "variables of one numeric kind (top level / main loop).  (d) also draws parameters widened at body level depending on another parameter / "
+                 "local / literal (`p = p + q`, `p += q`, `p = p * 0.5`): requested signatures reach their variant through the signature alias, call "
+                 "sites shuffled so that the final signature is met before and after the widened one (both counted); comprehensions inside helper "
+                 "bodies shadowing parameters / local accumulators; 5 fixed class representatives."),
         "guard": ("expressions: Lang/InferGuard.v guard (no string contagion onto a numeric name, numeric operands, `/` and `**` only with a float "
                   "operand, no unary minus on a bool label, and/or only on bool labels, conditional expression with equal or numeric labels, abs/min/max "
                   "on int/bool labels, uniform or numeric list elements, subscripts of list labels, no tuples). programs (theorem): flat_guard = every "
@@ -1336,14 +1372,26 @@ def run(ctx: C.Ctx):
                   "only re-assigned at the kind of its call signature (F-C02-param-declared-from-last-label); names first assigned directly inside a "
                   "loop body are never names an if/else hoists anywhere in the program (F-C02-stale-promotion-type); function-local names never "
                   "coincide with globals; return expressions all str or all numeric; a helper that calls another helper shares no local name with it "
-                  "(otherwise the callee variant parsed on demand does not declare its local and the sketch does not compile: C06's subject)."),
+                  "(otherwise the callee variant parsed on demand does not declare its local and the sketch does not compile: C06's subject). "
+                  "Parameters: never narrowed; widened only by a statement directly at body level (the parameter is declared from its label at the "
+                  "END of the body); all requested signatures of a helper that end on the same final signature type every local and the result "
+                  "alike (F-C02-widened-variant-overwritten); every call selects, by C++ overload resolution among the variants that can be "
+                  "emitted, the variant the transpiler means (an ambiguous overload does not compile: C06's subject); a Name passed to a helper "
+                  "has a label equal to its declared type.  Comprehensions: one generator over range(n), no filter, element int/float/bool, "
+                  "the list is only read by a subscript in mon.write; theorem guard rhs_guard = guard on the element under var_types[target] = int."),
         "unmodelled": [
+            "list comprehensions nested inside another operator (len([...]), [...][0], f([...])) stay EOther in Lang/PyAst.v and are labelled int by the "
+            "model (the real code labels them list[...]); range() with 2 or 3 arguments and filtered comprehensions; only right-hand sides that ARE a "
+            "(possibly nested) comprehension are modelled (Lang/InferComp.v) - the generators draw only those",
+            "the constant environment (vars) that _to_c_expr brackets together with var_types around a comprehension target is C03's subject; here it "
+            "only enters as an input of correspondence (a') (names bound to constants of every truthiness)",
+            "C++ overload resolution between emitted variants (harness/c02_fngen.cxx_pick keeps generated calls unambiguous); it is not part of the Gallina model",
             "calls to user functions from inside function bodies (recursion, helper calling helper: the re-entrant _ensure_function_variant with its "
             "_refreshing_functions set) - the statement model runs function bodies with the static function table; covered only by oracles (c) "
             "(template `twice`) and (d) (generated helpers calling earlier helpers)",
             "C02_function_result_covers_partial is proved for bodies made of (if-guarded) return statements; returns nested deeper, after assignments "
             "or inside loops are covered by correspondence (b) and oracle (d)",
-            "tuple assignment / swap temporaries, try/except bodies, list variables at statement level (append, element assignment), "
+            "tuple assignment / swap temporaries (not in the Gallina model; oracle (c) draws them at top level / in the main loop), try/except bodies, list variables at statement level (append, element assignment), "
             "function_param_types carried over between re-parses of the same def",
             "_to_c_expr failures (untranslatable right-hand sides abort the parse before typing) - generators only emit translatable expressions",
             "the annotated-return override (override_return) is modelled and refuted at model level, but is unreachable through parse(): RE_DEF does not "
@@ -1356,7 +1404,8 @@ def run(ctx: C.Ctx):
         "trusted_base": C.COMMON_TRUSTED + [
             "harness/gen/c02_infer.py (regenerates coq/Gen/InferTables.v: _BUILTIN_CALL_RETURN_TYPES, annotation labels; fail-closed)",
             "coq/Lang/PySem.v as the meaning of Python expressions (validated against CPython eval by harness/pysem_check.py)",
-            "harness/c02_fngen.py (generator and the abstract kind interpreter that keeps generated helper programs inside the guard)",
+            "harness/c02_fngen.py (generator, the abstract kind interpreter that keeps generated helper programs inside the guard, cxx_pick: a "
+            "three-rank model of C++ overload resolution used only to DROP generated programs)",
             "harness/pyast_wire.py + label/program codecs in harness/props/c02.py; regex extraction of declaration lines from the emitted sketch (harness/impl/c02_impl.py cpp_decls)",
             "mock Arduino core (mock/) + g++ -O0 as 'the device'; CPython 3.12 + harness/impl/pyrun_impl.py as 'what Python holds'",
             "value-level comparison of Serial lines (same_value_line): bool = 0/1, numbers to 0.0051 when the device prints decimals",
